@@ -335,7 +335,33 @@ class StlDiscreteTimeOfflineAstVisitor(StlAstVisitor):
 
 
     def visitTimedPrecedes(self, node, *args, **kwargs):
-        raise RTAMTException('Offline does not need visitTimedPrecedes')
+        sample_left  = self.visit(node.children[0], *args, **kwargs)
+        sample_right = self.visit(node.children[1], *args, **kwargs)
+        begin, end = self.time_unit_transformer(node)
+
+        sample_return = []
+        buffer_left = collections.deque(maxlen=(end + 1))
+        buffer_right = collections.deque(maxlen=(end + 1))
+
+        for i in range(end + 1):
+            s_left = float("inf")
+            s_right = - float("inf")
+            buffer_left.append(s_left)
+            buffer_right.append(s_right)
+
+        for i in range(len(sample_left)):
+            buffer_left.append(sample_left[i])
+            buffer_right.append(sample_right[i])
+            out_sample = - float("inf")
+
+            for j in range(begin, end+1):
+                c_left = float("inf")
+                c_right = buffer_right[j]
+                for k in range(0, j):
+                    c_left = min(c_left, buffer_left[k])
+                out_sample = max(out_sample, min(c_left, c_right))
+            sample_return.append(out_sample)
+        return sample_return
 
 
     def visitTimedOnce(self, node, *args, **kwargs):
